@@ -9,6 +9,7 @@ import (
 
 	header "github.com/celestiaorg/go-header"
 	zh "github.com/celestiaorg/go-header/internal/zzhdr"
+	zz "github.com/celestiaorg/go-header/internal/zzverif"
 	pubsub "github.com/libp2p/go-libp2p-pubsub"
 )
 
@@ -26,11 +27,15 @@ type zzSpecStore struct {
 	overwrites int         // Appends that replaced a stored header by a different one of the same height
 	deletes    [][2]uint64
 	failAppend func() error // optional fault injection
+	gateHead   bool
 }
 
 func zzNewSpecStore() *zzSpecStore { return &zzSpecStore{hdrs: map[uint64]*zh.Hdr{}} }
 
 func (s *zzSpecStore) Head(context.Context, ...header.HeadOption[*zh.Hdr]) (*zh.Hdr, error) {
+	if s.gateHead {
+		zz.Gate("store:head") // optional scheduling point: lets a delivery land between the sync loop's reads
+	}
 	if s.head == nil {
 		return nil, header.ErrEmptyStore
 	}
